@@ -1,6 +1,6 @@
 (* C09: the lock theorems.  Store lemmas are for ARBITRARY command sequences; the trace theorem is for every
    schedule of the system model. *)
-From RV Require Import Mon MonC09 Framework StoreLocks Discipline SysInv Eqb.
+From RV Require Import Mon MonC09 Framework StoreLocks StorePromises Discipline SysInv Eqb.
 From Coq Require Import Lia.
 
 (* ---------- chains over a command list ---------- *)
@@ -63,7 +63,7 @@ Proof. intros d t c H. destruct c; cbn in *; try reflexivity; subst; apply Z.eqb
 
 Lemma sub_at_c09 : forall d t s, sub_at d t s -> c09_sub t s = true.
 Proof.
-  intros d t s H. destruct s; cbn in *; try reflexivity. apply forallb_forall. intros c Hc.
+  intros d t s H. destruct s; cbn in *; try reflexivity. destruct H as [H _]. apply forallb_forall. intros c Hc.
   eapply cmd_at_c09. eapply Forall_forall; eassumption.
 Qed.
 
@@ -72,14 +72,14 @@ Proof. intros d t now c Hle H. destruct c; cbn in *; try exact I. lia. Qed.
 
 Lemma c09_exec_ok : forall now txns d d',
     locks_uniq d -> exec_cmds d (flat_batch txns) = Some d' ->
-    Forall (fun x => exists t, t <= now /\ Forall (cmd_at d t) (fst x)) txns ->
+    Forall (fun x => exists t, t <= now /\ Forall (cmd_at d t) (fst x) /\ txn_shape (fst x)) txns ->
     c09_exec now d (List.concat (map fst txns)) d' = [].
 Proof.
   intros now txns d d' U H Ht. rewrite <- flat_batch_fst.
   assert (Htime : Forall (cmd_time_ok now) (map fst (flat_batch txns))).
   { rewrite flat_batch_fst. apply Forall_forall. intros c Hc. apply in_concat in Hc. destruct Hc as [cs [Hcs Hc]].
     apply in_map_iff in Hcs. destruct Hcs as [x [Hx Hin]]. subst.
-    pose proof (proj1 (Forall_forall _ _) Ht x Hin) as [t [Hle Hall]].
+    pose proof (proj1 (Forall_forall _ _) Ht x Hin) as [t [Hle [Hall _]]].
     eapply cmd_at_time_ok; [exact Hle|]. eapply Forall_forall; eassumption. }
   unfold c09_exec.
   rewrite uniq_b_of_NoDup by (eapply exec_cmds_uniq; eassumption). cbn.
